@@ -199,5 +199,13 @@ func Replay(rp *evidence.Replay) int {
 		fmt.Println("replay: the control group did not diverge in this sample (reproduction is probabilistic)")
 		return 0
 	}
-	return gharness.Replay(Spec("quick", rp.Seed, 1), rp)
+	return gharness.Replay(Spec(tierOf(rp), rp.Seed, 1), rp)
+}
+
+// tierOf recovers the tier a replay file was found in (the corpus size depends on it).
+func tierOf(rp *evidence.Replay) string {
+	if len(rp.FoundAt) >= 8 && rp.FoundAt[:8] == "thorough" {
+		return "thorough"
+	}
+	return "quick"
 }
